@@ -19,7 +19,7 @@ RULE = ('states = group elements reached by BFS over the Cayley graph using the 
 ASSUMPTIONS = ['unit quaternions only (the statement is about unit quaternions)',
                'tolerance 1e-12 absolute (relative to |v| for vector rotation); observed <= 3e-15',
                'reference model mc/ref/quat.py is the textbook formula; any disagreement is reported as a violation']
-REQUIRED_CLASSES = ['cayley:closed', 'pairs:group', 'pairs:coset', 'unary:edge', 'rotate']
+REQUIRED_CLASSES = ['cayley:closed', 'pairs:group', 'pairs:coset', 'unary:edge', 'rotate', 'int-operands', 'array-history']
 TOL = 1e-12
 
 
@@ -204,6 +204,82 @@ def _lib_conjugates(q):
             'Quaternion.inverse': np.asarray(Quaternion(q.copy()).inverse)}
 
 
+def job_int_operands(ctx, k):
+    """Axis-aligned unit quaternions given as INTEGER arrays (a user writing [0, 1, 0, 0]) on either side of every product route."""
+    Quaternion, QuaternionArray, DCM, O = _lib()
+    ints = [np.array(v, dtype=int) for v in [(1, 0, 0, 0), (0, 1, 0, 0), (0, 0, 1, 0), (0, 0, 0, 1), (-1, 0, 0, 0), (0, 0, -1, 0)]]
+    gen = [A.MENU[k], A.Gl(A.G24(), k)[5], A.G48()[30]]
+    for ii, pi_ in enumerate(ints):
+        for gi, g in enumerate(gen):
+            for side in ('int*float', 'float*int'):
+                p, q = (pi_, g) if side == 'int*float' else (g, pi_)
+                ref = rq.qmul(np.asarray(p, float), np.asarray(q, float))
+                key = f'int#{ii} gen#{gi} k{k} {side}'
+                ctx.close(np.asarray(O.q_prod(p.copy(), q.copy()), float), ref, TOL, 'q_prod with an integer-typed operand = Hamilton product', key)
+                ctx.close(np.asarray(Quaternion(p.copy()).product(q.copy()), float), ref, TOL, 'Quaternion.product with an integer-typed operand = Hamilton product', key)
+                ctx.close(np.asarray(O.q2R(np.asarray(O.q_prod(p.copy(), q.copy()), float))), rq.R(np.asarray(p, float)) @ rq.R(np.asarray(q, float)), TOL,
+                          'q2R(q_prod(p, q)) = q2R(p) q2R(q) with an integer-typed operand', key)
+                ctx.seen(('int', ii, gi, side))
+                ctx.cls('int-operands')
+        v = np.array([0.3, -1.2, 2.5])
+        ctx.close(np.asarray(O.q_rot(pi_.copy(), v.copy()), float), rq.R(np.asarray(pi_, float)).T @ v, TOL, 'q_rot with an integer-typed quaternion', f'int#{ii}')
+        ctx.close(np.asarray(Quaternion(pi_.copy()).rotate(v.copy()), float), rq.R(np.asarray(pi_, float)) @ v, TOL, 'Quaternion.rotate with an integer-typed quaternion', f'int#{ii}')
+    ctx.sample({'integer_operand': [0, 1, 0, 0], 'other': gen[0].tolist()})
+
+
+def job_array_histories(ctx, k):
+    """Operation sequences on ONE QuaternionArray: after any sequence (including in-place ones) its matrices are those of a fresh array
+    built from its current rows, and equal the per-row reference."""
+    Quaternion, QuaternionArray, DCM, O = _lib()
+    import itertools
+    rows0 = A.Gl(A.G24(), k)[:6]
+    g = A.MENU[(k + 2) % 8]
+    ops = ['to_DCM', 'rotate_by(inplace)', 'rotate_by(copy)', 'conjugate', 'to_angles', 'remove_jumps', 'write_rows', 'negate_rows']
+    def apply(QA, op):
+        if op == 'to_DCM':
+            QA.to_DCM()
+        elif op == 'rotate_by(inplace)':
+            QA.rotate_by(g.copy(), inplace=True)
+        elif op == 'rotate_by(copy)':
+            QA.rotate_by(g.copy())
+        elif op == 'conjugate':
+            QA.conjugate()
+        elif op == 'to_angles':
+            QA.to_angles()
+        elif op == 'remove_jumps':
+            QA.remove_jumps()
+        elif op == 'write_rows':
+            QA.array[:] = A.Gl(A.G24(), k)[6:12]
+        elif op == 'negate_rows':
+            QA.array[1::2] *= -1.0
+    n = 0
+    for d in (1, 2, 3):
+        for word in itertools.product(ops, repeat=d):
+            if d > 1 and not any(o in word for o in ('rotate_by(inplace)', 'write_rows', 'negate_rows', 'remove_jumps')):
+                continue
+            if word[-1] != 'to_DCM' and d > 1:
+                continue                     # longer words are judged through the matrix they finally produce
+            QA = QuaternionArray(rows0.copy())
+            try:
+                for op in word:
+                    apply(QA, op)
+                    ctx.transitions += 1
+                got = np.asarray(QA.to_DCM())
+                cur = np.asarray(QA.array, float)
+                exp = np.array([rq.R(rq.qunit(r)) for r in cur])
+            except Exception as ex:
+                ctx.evals += 1
+                ctx.fail('QuaternionArray history raises', f'ops={">".join(word)} k{k}', repr(ex)[:200], 'completes')
+                continue
+            ctx.close(got, exp, TOL, 'QuaternionArray.to_DCM after an operation history = matrices of its current rows', f'ops={">".join(word)} k{k}')
+            ctx.seen(('arrhist', word))
+            ctx.cls('array-history')
+            n += 1
+    ctx.states += n
+    ctx.traces += n
+    ctx.sample({'array_history': 'to_DCM>rotate_by(inplace)>to_DCM', 'rows': rows0[:2].tolist()})
+
+
 def job_unary(ctx, k, part):
     Quaternion, QuaternionArray, DCM, O = _lib()
     name, S = _unary_set(k)[part]
@@ -267,6 +343,10 @@ def job_rotate(ctx, k, part):
         for j in np.nonzero(~(d <= TOL))[0]:
             ctx.fail('Quaternion.rotate(v) = M(q) v', f'{key} v={vecs[j][0]}', out[:, j], exp[:, j], TOL)
         M = np.asarray(Qq.to_DCM())
+        for nb in (1, 2, 3, 4):                         # 3-by-N blocks of column vectors for small N (N = 3 is a square block)
+            blk = V[:, 5:5 + nb].copy()
+            got = np.asarray(Qq.rotate(blk.copy()))
+            ctx.close(got, Rr @ blk, TOL * max(1.0, float(np.abs(blk).max())), 'Quaternion.rotate(3-by-N block) = M(q) @ block', f'{key} N={nb}')
         for j, (vn, v) in enumerate(vecs):
             s = float(np.abs(v).max())
             r1 = np.asarray(Qq.rotate(v.copy()))
@@ -301,6 +381,8 @@ def run(ctx):
             L = len(_pairset(sname, k))
             for lo, hi in core.chunks(L, n):
                 jobs.append(('job_pairs', (sname, k, lo, hi)))
+        jobs.append(('job_int_operands', (k,)))
+        jobs.append(('job_array_histories', (k,)))
         for part in range(len(_unary_set(k))):
             jobs.append(('job_unary', (k, part)))
             jobs.append(('job_rotate', (k, part)))
